@@ -39,6 +39,18 @@ func lifecycleCase(c *mon.Ctx, r *mon.Rand, prop string) {
 		rec = pr.Recorder
 		opts.Reporter = pr
 	}
+	// a quarter of the histories configure both reporter kinds: everything must
+	// then go to one and the same reporter, the one the passes flush
+	var recB *mon.Recorder
+	if r.Chance(1, 4) {
+		if cached {
+			pr := mon.NewPlainRec(true)
+			recB, opts.Reporter = pr.Recorder, pr
+		} else {
+			cr := mon.NewCachedRec(true)
+			recB, opts.CachedReporter = cr.Recorder, cr
+		}
+	}
 	root, _ := vNewRoot(opts, 0, uint(r.Range(0, 3)))
 	tagsOf := func(extra map[string]string) map[string]string {
 		out := map[string]string{}
@@ -52,7 +64,7 @@ func lifecycleCase(c *mon.Ctx, r *mon.Rand, prop string) {
 	}
 	var ops []string
 	desc := func() interface{} {
-		return map[string]interface{}{"cached": cached, "root_tags": len(opts.Tags), "ops": ops}
+		return map[string]interface{}{"cached": cached, "both_reporter_kinds": recB != nil, "root_tags": len(opts.Tags), "ops": ops}
 	}
 	c.Eval(1)
 	bad := func(sig, why string) { c.Violation(sig, map[string]interface{}{"why": why, "case": desc()}) }
@@ -74,6 +86,7 @@ func lifecycleCase(c *mon.Ctx, r *mon.Rand, prop string) {
 	var seq int64
 	c.Guard("panic-lifecycle", desc, func() {
 		var stale []handles
+		var staleScopes []tally.Scope
 		var staleKeys []string
 		for gen := 0; gen < nGen; gen++ {
 			name := fmt.Sprintf("gen%d", gen)
@@ -108,6 +121,7 @@ func lifecycleCase(c *mon.Ctx, r *mon.Rand, prop string) {
 				ops = append(ops, "pass")
 			}
 			stale = append(stale, h)
+			staleScopes = append(staleScopes, sc)
 			staleKeys = append(staleKeys, key("c"))
 			// fresh metrics created after the drop, never recorded on
 			fresh := root.SubScope(fmt.Sprintf("fresh%d", gen))
@@ -129,7 +143,17 @@ func lifecycleCase(c *mon.Ctx, r *mon.Rand, prop string) {
 				sh.h.RecordValue(1)
 				sh.h.Start().Stop()
 			}
-			ops = append(ops, "record through every stale handle")
+			// ... and makes first uses of new names on the closed (possibly already
+			// dropped) scope objects it still holds: harmless, whatever is delivered
+			for _, ss := range staleScopes {
+				ss.Timer("late-t").Record(time.Millisecond)
+				ss.Timer("late-t").Start().Stop()
+				ss.Counter("late-c").Inc(1000000)
+				ss.Gauge("late-g").Update(2000001)
+				ss.Histogram("late-h", vb).RecordValue(1)
+				ss.Histogram("late-hd", tally.DurationBuckets{time.Second}).RecordDuration(time.Millisecond)
+			}
+			ops = append(ops, "record through every stale handle, first uses on every stale scope")
 			tally.VerifReportPass(root)
 			ops = append(ops, "pass")
 			// second life: the same identity derived again is a working scope
@@ -156,6 +180,32 @@ func lifecycleCase(c *mon.Ctx, r *mon.Rand, prop string) {
 		_ = staleKeys
 	})
 	log, _, _ := rec.Snapshot()
+	if recB != nil {
+		logB, _, _ := recB.Snapshot()
+		count := func(l []mon.Event) (flushes, deliveries int) {
+			for _, ev := range l {
+				switch ev.Kind {
+				case mon.EvFlush:
+					flushes++
+				case mon.EvCounter, mon.EvGauge, mon.EvHistV, mon.EvHistD:
+					deliveries++
+				}
+			}
+			return
+		}
+		fa, da := count(log)
+		fb, db := count(logB)
+		switch {
+		case fa > 0 && fb > 0:
+			bad("both-reporters-flushed", fmt.Sprintf("both reporter kinds are configured and both were flushed (%d and %d times)", fa, fb))
+		case fb > 0:
+			log, da, db = logB, db, da
+		}
+		if db > 0 {
+			bad("delivery-to-the-reporter-that-is-not-flushed", fmt.Sprintf("both reporter kinds are configured: the one the passes flush received %d buffered deliveries, the other one %d", da, db))
+		}
+		c.Class("lifecycle-histories-with-both-reporter-kinds", 1)
+	}
 	gotCtr := map[string]int64{}
 	gotGauge := map[string][]uint64{}
 	for _, ev := range log {
